@@ -49,6 +49,8 @@ var unaryFns = []string{"length", "keys", "reverse", "sort", "unique", "flatten"
 	"to_yaml", "to_json", "@json", "to_xml", "to_props", "@csv", "@tsv", "@base64", "@base64d", "@uri", "@urid", "@sh",
 	"from_yaml", "from_json", "from_xml", "from_props", "from_csv", "from_tsv", "document_index", "file_index", "filename",
 	"line_comment", "head_comment", "foot_comment", "collect", "splitDoc", "to_unix", "from_unix", "tz(\"UTC\")", "is_key", "envsubst",
+	". - .", ".a - .a", ".[0] - .[1]", "[.[]] - [.[0]]", "[.a] - [.b]", "[.a, .b] | unique", "[.a] | contains([.a])", "(.a, .b) as $x | [.a] - [$x]",
+	"[.[]] | unique", ".list - .list", "[.use] - [.base]", ". as $d | [$d] - [$d]", "[.a] | unique_by(.)", "[.a, .a] | group_by(.)",
 	"del(.[0])", "del(.a[0])", "del(.[0]) | del(.[0])", "del(.a[0]) | del(.a[0]) | del(.a[0])", "del(.[-1])", "del(.a[], .a[0])", "del(.[] | .[0])",
 	"delpaths([[0]])", "delpaths([[\"a\", 0]])", "del(.. | select(. == 1))", "del(.[0], .[0])", "del(.a.b[0])", "with(.a; del(.[0]))",
 	"shuffle | length", "..", "...", ".[]", ".[0]", ".[-1]", ".[1:]", ".[:-1]", ".[-3:]", ".[2:1]", ".[3:1]", ".[-1:1]", ".[2:-4]", ".[1:0]", ".[-1:-2]", ".[4:2]", ".a", ".b", ".a[]", ".x?", ".[\"a\",\"b\"]"}
